@@ -909,9 +909,9 @@ def check_c18(tier, seed):
     vplib.sh(["clang"] + cov_flags.split() + ["-c", os.path.join(VERIF, "harness", "ctl_race.c"), "-o", ctl])
     runs = []
     # unpinned: the library's own CPU probes run inside the threads
-    b0 = build_harness(st, lib, "thr-unpinned", ["common.c", "pin.c", "families.c", "h_thr.c"], wraps=["calloc", "free"], extra_ld=[ctl])
+    b0 = build_harness(st, lib, "thr-unpinned", ["common.c", "pin.c", "families.c", "h_thr.c"], wraps=["calloc", "free", "memcpy", "memmove", "memset"], extra_ld=[ctl])
     runs.append((b0, "unpinned", 2))
-    b1 = build_harness(st, lib, "thr-pinned", ["common.c", "pin.c", "families.c", "h_thr.c"], wraps=["calloc", "free"] + WRAP_PIN, extra_ld=[ctl], defs=["-DUSE_PIN"])
+    b1 = build_harness(st, lib, "thr-pinned", ["common.c", "pin.c", "families.c", "h_thr.c"], wraps=["calloc", "free", "memcpy", "memmove", "memset"] + WRAP_PIN, extra_ld=[ctl], defs=["-DUSE_PIN"])
     for be in (0, 1):
         runs.append((b1, "pinned-be%d" % be, be))
     per = {}
